@@ -25,6 +25,9 @@ HERE = os.path.dirname(os.path.dirname(os.path.abspath(__file__)))
 REPO = os.environ.get("RTFMON_REPO", "/repo")
 PY = os.environ.get("RTFMON_PY", "/venv/bin/python")
 NPROC = int(os.environ.get("RTFMON_JOBS", "16"))
+# runs against a scratch copy of the repository (mutation testing) must not touch the
+# committed evidence / replay files
+OUT = HERE if REPO == "/repo" else os.path.join(HERE, ".work", "scratch-" + os.path.basename(REPO.rstrip("/")))
 MAX_EXAMPLES = 6
 
 
@@ -310,8 +313,8 @@ def main(argv=None):
         "coverage": cov, "assumptions": list(getattr(prop, "ASSUMPTIONS", [])),
         "wall_s": wall, "violations": sum(s["count"] for s in unknown_viols.values()),
     }
-    os.makedirs(os.path.join(HERE, "evidence"), exist_ok=True)
-    with open(os.path.join(HERE, "evidence", pid + ".json"), "w") as f:
+    os.makedirs(os.path.join(OUT, "evidence"), exist_ok=True)
+    with open(os.path.join(OUT, "evidence", pid + ".json"), "w") as f:
         json.dump(ev, f, indent=1, default=str)
 
     print(f"[{pid}] tier={tier} seed={seed} cases={cases} distinct_nontrivial={len(hashes)} "
@@ -323,7 +326,7 @@ def main(argv=None):
                   f"(observed {known_hits.get(e['matcher'], 0)}x in this run)")
     rc = 0
     if unknown_viols:
-        rdir = os.path.join(HERE, "replays", pid)
+        rdir = os.path.join(OUT, "replays", pid)
         os.makedirs(rdir, exist_ok=True)
         shown = 0
         for mech, slot in sorted(unknown_viols.items(), key=lambda kv: -kv[1]["count"]):
